@@ -154,6 +154,7 @@ def _calls(ctx, group, layout):
     Y = _tt(ctx, 'y', [2, 2], 2, layout)
     Z = _tt(ctx, 'z', [2, 2], 1, layout)
     I2 = np.array([[0, 1], [1, 0], [1, 1]])
+    In = np.array([[-1, 0], [1, -2]])
     T = teneva
     if group == 'act':
         P = [vec(ctx, 'p0', 2), vec(ctx, 'p1', 2)]
@@ -167,7 +168,10 @@ def _calls(ctx, group, layout):
                 lambda: T.accuracy_on_data(Y, I2, dd), lambda: T.shape(Y), lambda: T.ranks(Y), lambda: T.size(Y), lambda: T.erank(Y),
                 # neutral number operands (a shortcut must not hand back the operand itself)
                 lambda: T.add(Y, 0.), lambda: T.add(0, Y), lambda: T.sub(Y, 0.), lambda: T.mul(Y, 1.), lambda: T.mul(1, Y),
-                lambda: T.mul(Y, 0.), lambda: T.outer_many([Y])]
+                lambda: T.mul(Y, 0.), lambda: T.outer_many([Y]),
+                # index arrays of the default integer dtype that address elements from the end
+                lambda: T.get_many(Y, In), lambda: T.get(Y, In), lambda: T.accuracy_on_data(Y, In, dd[:2]),
+                lambda: T.get(Y, In[0]), lambda: T.get_and_grad(Y, In[1])]
     if group == 'optima':
         # beam search on a tensor that is already orthogonal (to_orth=False): no factorisation involved
         Y1 = [_layout(ctx.array('o0', (1, 2, 1)), layout), _layout(ctx.array('o1', (1, 2, 1)), layout)]
@@ -245,7 +249,7 @@ def _calls(ctx, group, layout):
     raise KeyError(group)
 
 
-N_STEPS = {'act': 33, 'core': 12, 'tensors_grid': 16, 'func': 18, 'anova_sample': 4, 'optima': 11}
+N_STEPS = {'act': 38, 'core': 12, 'tensors_grid': 16, 'func': 18, 'anova_sample': 4, 'optima': 11}
 
 
 def h_templates(ctx, group, layout, step):
